@@ -114,6 +114,8 @@ class CallMixin:
 
     # ------------------------------------------------------------------ calls
     def e_Call(self, n, st):
+        if isinstance(n.func, ast.Name) and n.func.id == "cast" and len(n.args) == 2 and n.func.id not in st.env:
+            return self.ev(n.args[1], st)       # typing.cast(T, x) is x; the type expression is not evaluated
         f = self.ev(n.func, st)
         args = []
         for a in n.args:
